@@ -16,7 +16,20 @@ SPEC = os.path.join(ROOT, "spec")
 HARNESS = os.path.join(ROOT, "harness")
 EVIDENCE = os.path.join(ROOT, "evidence")
 REPLAYS = os.path.join(WORK, "replays")
-DRIVER = os.path.join(HARNESS, "target", "debug", "driver")
+# Evaluation of a change to divan without touching /repo: VERIF_REPO=<copy or
+# worktree of the repository> builds the harness against that tree (cargo
+# `paths` override) into its own target directory and keeps evidence apart.
+REPO_OVERRIDE = os.environ.get("VERIF_REPO")
+if REPO_OVERRIDE:
+    import hashlib
+    _tag = hashlib.sha1(REPO_OVERRIDE.encode()).hexdigest()[:10]
+    TARGET = os.path.join(WORK, f"target_{_tag}")
+    WORK = os.path.join(WORK, f"ovr_{_tag}")
+    EVIDENCE = os.path.join(WORK, "evidence")
+    REPLAYS = os.path.join(WORK, "replays")
+else:
+    TARGET = os.path.join(HARNESS, "target")
+DRIVER = os.path.join(TARGET, "debug", "driver")
 
 EXIT_OK, EXIT_VIOLATION, EXIT_TOOL = 0, 1, 2
 
@@ -54,8 +67,11 @@ def build_harness():
     env = dict(os.environ)
     env["CARGO_NET_OFFLINE"] = "true"
     t0 = time.time()
+    cmd = ["cargo", "build", "--offline", "--bins"]
+    if REPO_OVERRIDE:
+        cmd += ["--config", f'paths=["{REPO_OVERRIDE}"]', "--target-dir", TARGET]
     p = subprocess.run(
-        ["cargo", "build", "--offline", "--bins"],
+        cmd,
         cwd=HARNESS, env=env, stdout=subprocess.PIPE, stderr=subprocess.STDOUT,
         text=True)
     if p.returncode != 0:
